@@ -292,6 +292,44 @@ func oracle(o callObs) []string {
 	return v
 }
 
+// failureClass labels a failing case by the kind of failure, so that bin/check reports (and shrinks) one replay per
+// kind instead of only the first failing case.  "" for a passing case.
+func failureClass(calls []callObs) string {
+	rank := map[string]int{"": 0, "nondeterministic": 1, "unsound_alternative": 2, "wrong_shape": 3, "panics": 4, "diverges": 5}
+	best := ""
+	up := func(k string) {
+		if rank[k] > rank[best] {
+			best = k
+		}
+	}
+	for _, o := range calls {
+		switch o.Outcome {
+		case "stack", "timeout", "crash":
+			up("diverges")
+		case "panic":
+			up("panics")
+		case "ok":
+			if o.N != len(o.Decl) || len(o.Lists) != o.N {
+				up("wrong_shape")
+			}
+			for _, l := range o.Lists {
+				if len(l) == 0 {
+					up("wrong_shape")
+				}
+				for _, a := range l {
+					if !a.Const && !a.Assignable {
+						up("unsound_alternative")
+					}
+				}
+			}
+			if !o.Same {
+				up("nondeterministic")
+			}
+		}
+	}
+	return best
+}
+
 func declAt(o callObs, i int) string {
 	if i < len(o.Decl) {
 		return o.Decl[i]
@@ -395,6 +433,7 @@ func runProg(inp input, scratch string) core.Result {
 	failing := len(res.GoViolations) > 0
 	if failing {
 		obs.Source = files
+		res.Class = failureClass(sr.calls)
 	}
 	res.Observed = obs
 	prog := p.coqProg()
